@@ -531,7 +531,16 @@ def build_catalogue(ctx):
         tag = f"[grid {gdt}]"
 
         def xy(rng, n):
-            return Arr([[rng.uniform(0.1, 5.9), rng.uniform(0.1, 4.9)] for _ in range(n)])
+            # mostly inside the 5x6 unit-cell grid; some coordinates exactly on the outer
+            # edges / cell edges and a few outside (kernels have special code for those)
+            def cx():
+                r = rng.random()
+                return rng.choice([0.0, 6.0, 3.0, -0.5, 6.5]) if r < 0.2 else rng.uniform(0.1, 5.9)
+
+            def cy():
+                r = rng.random()
+                return rng.choice([0.0, 5.0, 2.0, -0.5, 5.5]) if r < 0.2 else rng.uniform(0.1, 4.9)
+            return Arr([[cx(), cy()] for _ in range(n)])
         for cls_extra in (None,):
             S.append(Spec("Grid.coord2cell" + tag, lambda rng, n, gdt=gdt: {"self": gridarg(rng, n, gdt), "xycoords": xy(rng, n)},
                           lambda a: a["self"].coord2cell(a["xycoords"]),
@@ -568,6 +577,15 @@ def build_catalogue(ctx):
                       lambda a: a["self"].clip(1.2, 1.3, 4.5, 3.9), classes=GC))
         S.append(Spec("Grid.apply" + tag, lambda rng, n, gdt=gdt: {"self": gridarg(rng, n, gdt)},
                       lambda a: a["self"].apply(np.sqrt), classes=GC))
+        # callbacks that work in place on the array they receive: the grid itself must keep its values
+        S.append(Spec("Grid.apply[in-place multiply]" + tag, lambda rng, n, gdt=gdt: {"self": gridarg(rng, n, gdt)},
+                      lambda a: a["self"].apply(lambda x: np.multiply(x, 2.0, out=x)), classes=GC))
+
+        def _censor(x):
+            x[x < 15] = 0
+            return x
+        S.append(Spec("Grid.apply[in-place mask]" + tag, lambda rng, n, gdt=gdt: {"self": gridarg(rng, n, gdt)},
+                      lambda a: a["self"].apply(_censor), classes=GC))
         S.append(Spec("Grid.clone" + tag, lambda rng, n, gdt=gdt: {"self": gridarg(rng, n, gdt)},
                       lambda a: a["self"].clone(np.float32), classes=GC))
         S.append(Spec("Grid.interpolate" + tag,
